@@ -40,7 +40,7 @@ EXTENDS RoutingOps, TLC
 
 CONSTANTS RootTpls, ATpls, ABTpls,   \* controller classes (template names, "none") the three channels may carry
           Segs, MaxLen,              \* path segments, maximal number of them
-          Methods, Queries, Bodies,  \* HTTP methods; query / body parameter choices ("none", "p1", "p2", "z")
+          Methods, Queries, Bodies,  \* HTTP methods; query / body parameter choices ("none", "p1", "p2", "z", "ze")
           TSs, NCs,                  \* trailing slash choices (subset of BOOLEAN); spellings ("" canonical, "dslash", "dot", "pct")
           Dynamic,                   \* BOOLEAN: controllers are unregistered / registered again
           MaxSteps, MaxReqs,         \* bounds on the environment history
@@ -87,7 +87,8 @@ Tpl(t) ==
            H("ev",    "plain", 0, 0, TRUE, TRUE) >>]
     [] t = "meth" -> [base |-> FALSE, hs |-> <<
            H("GET",   "auto", 0, 0, TRUE, TRUE),        \* GET( *args, **kw)
-           H("POST",  "auto", 0, 0, FALSE, FALSE) >>]   \* POST()
+           H("POST",  "auto", 0, 0, FALSE, FALSE),      \* POST()
+           H("x",     "auto", 0, 0, FALSE, FALSE) >>]   \* x(): the handler named like the HTTP method comes first
     [] t = "idx2" -> [base |-> FALSE, hs |-> <<
            H("index", "auto", 2, 0, FALSE, FALSE),      \* index(p1, p2)
            H("f",     "auto", 3, 1, FALSE, FALSE),      \* f(p1, p2, p3=None)
@@ -116,11 +117,13 @@ Paths == SeqsOf(MaxLen)
 QPairs(q) == CASE q = "p1" -> <<[k |-> "p1", v |-> "1"]>>
                [] q = "p2" -> <<[k |-> "p2", v |-> "2"]>>
                [] q = "z"  -> <<[k |-> "z", v |-> "3"]>>
+               [] q = "ze" -> <<[k |-> "z", v |-> ""]>>        \* ?z=  (a blank value is a value)
                [] OTHER -> <<>>
+QKey(q) == IF q = "ze" THEN "z" ELSE q
 BPairs(b) == CASE b = "p1" -> <<[k |-> "p1", v |-> "4"]>>
                [] b = "z"  -> <<[k |-> "z", v |-> "5"]>>
                [] OTHER -> <<>>
-SortedKeys(q, b) == SelectSeq(<<"p1", "p2", "z">>, LAMBDA k : k \in {q, b})
+SortedKeys(q, b) == SelectSeq(<<"p1", "p2", "z">>, LAMBDA k : k \in {QKey(q), b})
 
 Req(m, segs, q, b, nc) ==
   [m |-> m, segs |-> segs, canon |-> nc = "", keys |-> SortedKeys(q, b), q |-> QPairs(q), b |-> BPairs(b)]
